@@ -33,7 +33,7 @@ ASSUMPTIONS = ['guarded hook AJQUINN_EMD_MIRROR_VERIF=1 reports the arguments ea
 REQUIRED_CLASSES = ['stage-calls-seen:get_next_imf', 'stage-calls-seen:interp_envelope', 'stage-calls-seen:get_padded_extrema']
 EXPECTED_LABELS = ['never-raises', 'imf-options-reach-get_next_imf', 'envelope-options-reach-interp_envelope',
                    'extrema-options-reach-get_padded_extrema']
-BUDGET_S = {'quick': 170, 'thorough': 1200}
+BUDGET_S = {'quick': 170, 'thorough': 900}
 OPTS = {'quick': {'sample_every': 23, 'concolic': False}, 'thorough': {'sample_every': 53, 'concolic': False}}
 
 VARIANTS = ['sift', 'mask_sift', 'mask_sift_zc', 'ensemble_sift', 'complete_ensemble_sift', 'sift_second_layer', 'mask_sift_second_layer']
@@ -123,7 +123,8 @@ def call(h, variant, route, X, imf, env, ext, p):
         extra = dict(mask_amp=0.5, mask_amp_mode='abs', nphases=p['nphases'], max_imfs=2,
                      mask_freqs='zc' if variant == 'mask_sift_zc' else [0.3, 0.125])
     elif base in ('ensemble_sift', 'complete_ensemble_sift'):
-        extra = dict(nensembles=p['nens'], max_imfs=2 if base == 'complete_ensemble_sift' else 1, ensemble_noise=0.25)
+        extra = dict(nensembles=p['nens'], max_imfs=2 if base == 'complete_ensemble_sift' else 1, ensemble_noise=0.25,
+                     noise_mode='flip' if route != 'kwargs' else 'single')
     if base == 'sift_second_layer':
         return S.sift_second_layer(X, sift_args={'imf_opts': imf, 'envelope_opts': env, 'extrema_opts': ext, 'max_imfs': 2})
     if base == 'mask_sift_second_layer':
